@@ -18,11 +18,12 @@ PY_MIN = "PyLib PyLibSd PyLibCore PyLibSd2 PySrcSdBase PySrcSdMin PySrcSdMinFact
 PY_PERC = "PyLib PyLibSd PyLibPerc PySrcPerc PySrcPercFacts PyLibDrivers PySrcDrivers PySrcDriversFacts"       # space_utils.percolate_space_strict, percolation_conflicts
 PY_SCC = "PyLib PyLibSd PyLibCore PyLibSd2 PyLibScc PySrcSdBase PySrcSdScc PySrcSdSccFacts"     # expand_source_SCCs.attach_scc_subdiagram
 PY_SCCMAIN = PY_SCC + " Control PyLibControl PySrcSdSccMain PySrcSdSccMainFacts"     # expand_source_SCCs.expand_source_SCCs
+PY_GETTERS = "PyLib PyLibCore PySrcCore PySrcCoreFacts PySrcGetters PySrcGettersFacts"     # node_ids, stub_ids, expanded_ids, minimal_trap_spaces, find_node, edge_stable_motif, edge_all_stable_motifs (pinned text)
 PY_API = PY_SCCMAIN + " PyLibBlocks PySrcSdBlocks PySrcApi PySrcEndToEndScc"     # public methods expand_scc / expand_block / build; expand_source_blocks
 PY_CONTROL = "PyLib PyLibSd PyLibPerc PyLibCore PyLibControl PySrcControl PySrcControlFacts PySrcFindDriversFacts PySrcControlCorollaries"    # control.find_drivers, drivers_of_succession
 PY_ASEEDS = PY_MIN + " Candidates Blocks ASeeds PySrcSdASeeds PySrcSdASeedsFacts"     # _sd_algorithms/expand_attractor_seeds.py
-EXTRA_IMPORTS = {"C02": PY_SD + " " + PY_CORE2 + " PySrcEndToEnd", "C01": PY_API, "C03": PY_SD + " " + PY_ASEEDS + " PySrcComplFacts " + PY_API, "C04": PY_SD + " " + PY_CORE, "C05": PY_CORE2 + " " + PY_MIN, "C13": PY_SD + " " + PY_TARGET + " " + PY_ASEEDS + " PySrcTermFacts " + PY_API, "C14": PY_CORE2 + " " + PY_SCC, "C15": PY_SD + " " + PY_TARGET + " " + PY_ASEEDS, "C16": "PyLib PyLibPickle PySrcPickle PySrcPickleFacts " + PY_CORE2,
-                 "C06": PY_SPACE + " " + PY_TARGET + " PySrcEndToEndControl " + PY_CONTROL, "C07": PY_CONTROL, "C10": PY_PLACE, "C11": PY_PERC, "C19": PY_SD + " " + PY_CORE, "C20": PY_KEY + " " + PY_CORE2 + " PyLibSd PyLibPerc PySrcIso PySrcIsoFacts"}
+EXTRA_IMPORTS = {"C02": PY_SD + " " + PY_CORE2 + " PySrcEndToEnd", "C01": PY_API, "C03": PY_SD + " " + PY_ASEEDS + " PySrcComplFacts " + PY_API + " " + PY_GETTERS, "C04": PY_SD + " " + PY_CORE, "C05": PY_CORE2 + " " + PY_MIN, "C13": PY_SD + " " + PY_TARGET + " " + PY_ASEEDS + " PySrcTermFacts " + PY_API, "C14": PY_CORE2 + " " + PY_SCC, "C15": PY_SD + " " + PY_TARGET + " " + PY_ASEEDS, "C16": "PyLib PyLibPickle PySrcPickle PySrcPickleFacts " + PY_CORE2,
+                 "C06": PY_SPACE + " " + PY_TARGET + " PySrcEndToEndControl " + PY_CONTROL, "C07": PY_CONTROL, "C10": PY_PLACE, "C11": PY_PERC, "C19": PY_SD + " " + PY_CORE, "C20": PY_KEY + " " + PY_CORE2 + " PyLibSd PyLibPerc PySrcIso PySrcIsoFacts " + PY_GETTERS}
 
 def imports_for(pid):
     extra = EXTRA_IMPORTS.get(pid)
@@ -150,6 +151,7 @@ expand_scc_LeafOK, expand_scc_MinFound) -- although the diagram it builds is not
 statement has a theorem.""",
  theorems=[("source_expand_source_SCCs", "py_expand_source_SCCs_spec", "translator tie: the function GENERATED from the current text of expand_source_SCCs.expand_source_SCCs (PySrcSdSccMain.v: root sources, BFS over the levels, recursion through the default expander into the sub-diagrams of the source SCCs, attachment by the generated attach_scc_subdiagram) does what the model's SCC.scc_main does on every diagram satisfying SCCTerm.SI, for every fuel, tape and nesting depth"),
            ("source_expand_source_SCCs_fresh", "py_expand_source_SCCs_fresh", None),
+           ("source_minimal_trap_spaces", "py_minimal_trap_spaces_spec", "the OBSERVATION of C03: SuccessionDiagram.minimal_trap_spaces(), pinned to its current text (PySrcGetters.v; its condition is the generated node_is_minimal), returns the model's minimal_ids"),
            ("source_text_expand_scc_complete", "py_api_expand_scc_complete", "C03 for the SOURCE TEXT of the source-SCC strategy: when the generated public method expand_scc returns True on a fresh diagram, every minimal trap space is an expanded leaf, every expanded leaf is a minimal trap space, and no stub is left"),
            ("source_text_expand_minimal_spaces_complete", "py_expand_minimal_spaces_complete", "C03 for the SOURCE TEXT: when the generated public methods report completion, every minimal trap space is found / everything is expanded"),
            ("source_text_expand_attractor_seeds_complete", "py_expand_attractor_seeds_MinFound", None), ("source_text_expand_bfs_complete", "py_expand_bfs_complete", None), ("source_text_expand_dfs_complete", "py_expand_dfs_complete", None),
@@ -569,6 +571,9 @@ Model: node ids are list positions (contiguous from the root at 0, len = size); 
 raise_depth; find_node goes through the integer key; ObsFacts.is_subgraph_b models is_subgraph (after fix 087feea).
 PARTIAL: summary() is not modelled; it is decided by recomputation in the run.""",
  theorems=[("source_is_subgraph", "py_is_subgraph_spec", "translator tie: SuccessionDiagram.is_subgraph / is_isomorphic as generated from the source compute the model's is_subgraph_b / is_isomorphic_b (whose specs are is_subgraph_b_spec / is_isomorphic_b_spec)"), ("source_is_isomorphic", "py_is_isomorphic_spec", None),
+           ("source_find_node", "py_find_node_spec", "SuccessionDiagram.find_node, pinned to its current text (PySrcGetters.v), is the model's find_node whenever node_indices is consistent with the graph (part of CoreInv, kept by every method) -- hence exact:"), ("source_find_node_exact", "py_find_node_exact", None), ("source_find_node_none", "py_find_node_none", None),
+           ("source_node_ids", "py_node_ids_spec", "the id iterators enumerate the nodes / the expanded nodes / the stubs"), ("source_expanded_ids", "py_expanded_ids_spec", None), ("source_stub_ids", "py_stub_ids_spec", None),
+           ("source_edge_stable_motif_first", "py_edge_stable_motif_first", "edge_stable_motif is the first of edge_all_stable_motifs (also reduced), defined exactly on the edges"), ("source_edge_stable_motif_defined", "py_edge_stable_motif_defined", None),
            ("source_init", "py_init_spec", None),
            ("source_depth", "py_depth_spec", "translator tie: SuccessionDiagram.depth as generated from the source = Diagram.depth"),
            ("source_ensure_node", "py_ensure_node_spec", "... _ensure_node / _ensure_edge / _update_node_depth compute Diagram.ensure_node"),
